@@ -17,7 +17,8 @@ def choiceEffects : List Generated.Effect :=
 theorem choice_path_extracted : Generated.scannedFunctions.contains "deterministic_choice" = true ∧
     Generated.scannedFunctions.contains "deterministic_proba" = true := by decide
 
-/-- **table obligation**: every write of the choice path is to a local variable of the call -/
-theorem choice_path_writes_only_locals : choiceEffects.all (·.kind == "local") = true := by decide
+/-- **table obligation**: every write of the choice path is to a local variable of the call or to an object created in the call
+    (e.g. a digest object that is fed piecewise) -/
+theorem choice_path_writes_only_locals : choiceEffects.all (fun e => e.kind == "local" || e.kind == "fresh-object") = true := by decide
 
 end Pyab.Properties
